@@ -85,7 +85,12 @@ func (pConn *PFCPConn) handleIncomingResponse(msg message.Message) {
 	req, ok := pConn.pendingReqs.Load(msg.Sequence())
 
 	if ok {
-		req.(*Request).reply <- msg
+		// the requester may be gone when the connection is shutting down
+		select {
+		case req.(*Request).reply <- msg:
+		case <-pConn.shutdown:
+		}
+
 		pConn.pendingReqs.Delete(msg.Sequence())
 	}
 }
